@@ -3,6 +3,7 @@ package main
 // Symbolic values and program states.
 
 import (
+	"sync"
 	"fmt"
 	"go/types"
 	"sort"
@@ -255,7 +256,18 @@ func scalarSort(t types.Type) Sort {
 	return ""
 }
 
+// memSortReg: memory array name -> sort, recorded whenever a name is formed from an element type.
+var memSortReg sync.Map
+
 func memName(elem types.Type) string {
+	n := memName1(elem)
+	if es := scalarSort(elem); es != "" {
+		memSortReg.Store(n, ArraySort(SInt, ArraySort(SInt, es)))
+	}
+	return n
+}
+
+func memName1(elem types.Type) string {
 	s := types.TypeString(elem.Underlying(), nil)
 	s = strings.NewReplacer(" ", "_", "*", "p", "[", "L", "]", "R", ".", "_", "/", "_", "{", "_", "}", "_", ";", "_", "(", "_", ")", "_", ",", "_").Replace(s)
 	if _, ok := elem.Underlying().(*types.Struct); ok {
